@@ -273,10 +273,20 @@ CLAIMS = {
          "emitted Go subset). For every accepted corpus and generated program the REAL Core, Mono, Lift and ANF dumps are run under Sem "
          "and the REAL Go AST under Go.Sem; stdout and the way the run ends must agree stage by stage (the first divergent stage names "
          "the guilty pass) and with the outputs recorded from real Go. The pass-level preservation theorems live under C06-C10; this check "
-         "is the glue between them and the code.",
+         "is the glue between them and the code. "
+         "The reference is SOURCE-LEVEL: the REAL ast::File(s) of the project (repository's own parser + lowering, every package) are run "
+         "under SrcSem (Model/SrcSem.lean), a dynamically typed big-step interpreter of the surface language that consults nothing the "
+         "front end computes (lexical scoping as C05 states it, binding by FIELD NAME for struct patterns/literals, first match, runtime "
+         "dispatch of the three method-call forms, unsuffixed literals = int32); a src/core divergence names the front end (derive, name "
+         "resolution, typer elaboration, match compilation). Where a value does not reveal what types decide SrcSem answers "
+         "`unsupported:<why>` and the check falls back to Core for that program (evidence: counts and reasons). Proved about SrcSem "
+         "(Props/C01src.lean): struct patterns and struct literals are invariant under permutation of their written fields, initialisers "
+         "run in written order, environments are only passed down, lookup = the C05 resolver model's lookup.",
     design_ref="§5 C01",
     note="Trusted: Sem/Go.Sem as definitions (Go.Sem reproduces all recorded corpus outputs), harness IR serialisers, the generator's coverage. "
-         "Not covered: go_pprint.rs (AST is dumped before printing), real goroutine interleavings, Go's float formatting.",
+         "Not covered: go_pprint.rs (AST is dumped before printing), real goroutine interleavings, Go's float formatting. "
+         "SrcSem starts at ast::File: CST->AST lowering itself (operator association, literal decoding) is C11/C12's; SrcSem is validated "
+         "like Go.Sem, by reproducing every recorded corpus output it can decide.",
     technique="translation validation with Lean-defined executable semantics (Sem vs Go.Sem) on real stage dumps"),
  "C02": dict(
     category="translation_validation",
